@@ -1215,9 +1215,18 @@ class TaskPool:
                 if (
                     itask.point > stop_point
                     and itask.state(TASK_STATUS_WAITING)
-                    and itask.state_reset(is_runahead=True)
                 ):
-                    self.data_store_mgr.delta_task_state(itask)
+                    unqueue = (
+                        itask.state.is_queued and not itask.is_manual_submit
+                    )
+                    if unqueue:
+                        # (don't let the queue release it regardless)
+                        self.task_queue_mgr.remove_task(itask)
+                    if itask.state_reset(
+                        is_runahead=True,
+                        is_queued=False if unqueue else None,
+                    ):
+                        self.data_store_mgr.delta_task_state(itask)
         return True
 
     def can_stop(self, stop_mode):
